@@ -10,16 +10,19 @@ CORPUS = os.path.join(vlib.VERIF, "corpus", "consensus")
 
 
 def design_check(work, tier):
-    """exhaustive TLC run of the guarded spec on a bounded instance"""
-    if tier == "quick":
-        consts = cc.constants(max_round=1, max_rh=1, leader="FixedLeader")
-        to = 900
-    else:
-        consts = cc.constants(max_round=1, max_rh=2, leader="FixedLeader")
-        to = 3000
-    cfg = vlib.cfg_text(constants=consts, view="view", symmetry="Symm23",
-                        invariants=["Agreement", "LockHasQC", "CommitHasQC", "VoteOnce", "TypeOK"])
-    r = vlib.tlc(os.path.join(work, "design"), "MCConsensus", cfg, workers=16, timeout=to, extra=["-coverage", "1"])
+    """exhaustive TLC run of the guarded spec on a bounded instance; the thorough tier adds a time-boxed exploration of a
+    larger instance (two root-height changes) whose incompleteness is reported, not required"""
+    consts = cc.constants(max_round=1, max_rh=1, leader="FixedLeader")
+    inv = ["Agreement", "LockHasQC", "CommitHasQC", "VoteOnce", "TypeOK"]
+    cfg = vlib.cfg_text(constants=consts, view="view", symmetry="Symm23", invariants=inv)
+    r = vlib.tlc(os.path.join(work, "design"), "MCConsensus", cfg, workers=16, timeout=1500, extra=["-coverage", "1"])
+    deep = None
+    if tier != "quick":
+        c2 = cc.constants(max_round=1, max_rh=2, leader="FixedLeader")
+        deep = vlib.tlc(os.path.join(work, "design-deep"), "MCConsensus", vlib.cfg_text(constants=c2, view="view", symmetry="Symm23", invariants=inv), workers=16, timeout=1500)
+        if deep.violated:
+            raise vlib.Infra("design check (deep): guarded Consensus.tla violates %s (spec bug, not a finding)" % deep.violated)
+    r.deep = deep
     return r, consts
 
 
@@ -185,6 +188,7 @@ def main(tier):
             "constants": {k: consts[k] for k in ("MaxRound", "MaxRH", "LeaderChoices", "Honest", "Byz", "Values")},
             "traces_validated_against_impl": len(runs) + len(sruns) if accepted else 0,
             "trace_lines": total, "trace_lines_accepted": consumed,
+            "deep_design_states": (r.deep.distinct if r.deep else 0), "deep_design_finished": bool(r.deep and r.deep.finished),
             "attack_scripts_replayed": len(runs), "attack_results": attack_results, "scripts_replayed_with_results_only_values": len(same_runs),
             "behaviours_replayed": len(sruns), "behaviours_with_commit": commits, "behaviours_infeasible": len(infeasible),
             "simulation": sim_stats, "coverage_by_action": {k: list(vv) for k, vv in cov.items()},
